@@ -2,6 +2,7 @@ package main
 
 import (
 	"fmt"
+	"go/token"
 	"go/types"
 
 	"golang.org/x/tools/go/ssa"
@@ -113,11 +114,32 @@ func (m *convergeModel) invokesOn(v ssa.Value, name string) []ssa.CallInstructio
 		if !cc.IsInvoke() || cc.Method.Name() != name {
 			continue
 		}
-		if x := stripConv(m.reg.Resolve(stripConv(cc.Value))); x == rv || sameVar(x, rv) {
+		x := stripConv(m.reg.Resolve(stripConv(cc.Value)))
+		if cr := cellRead(x); cr != nil {
+			x = stripConv(m.reg.Resolve(stripConv(cr)))
+		}
+		if x == rv || sameVar(x, rv) {
 			out = append(out, ci)
 		}
 	}
 	return out
+}
+
+// cellRead: v is a read of a local variable cell that exactly one
+// assignment can reach: the assigned value.
+func cellRead(v ssa.Value) ssa.Value {
+	u, ok := v.(*ssa.UnOp)
+	if !ok || u.Op != token.MUL {
+		return nil
+	}
+	al, ok := u.X.(*ssa.Alloc)
+	if !ok {
+		return nil
+	}
+	if vals := reachingStores(al, u); len(vals) == 1 {
+		return vals[0]
+	}
+	return nil
 }
 
 // beginIndex: which Begin of Converge a connection value originates from
@@ -169,8 +191,8 @@ func propC02(c *Ctx) {
 		if !m.reach[s.Fn] {
 			continue
 		}
-		if s.Method == "Begin" && s.Fn == conv {
-			continue
+		if s.Method == "Begin" && m.reg.Has(s.Fn) {
+			continue // the step's own Begin calls (in Converge or a helper only it calls)
 		}
 		if s.Fn.Name() == "NewTask" {
 			continue
@@ -225,13 +247,49 @@ func propC02(c *Ctx) {
 				commitNil = append(commitNil, n...)
 			}
 		}
+		// the commit may live in a helper: then the helper returns nil only after the
+		// commit succeeded, and Converge returns nil only after the helper did
+		commitFn := conv
+		if len(commits) > 0 {
+			commitFn = commits[0].Parent()
+		}
+		var viaHelper []Edge
+		helperOK := true
+		if commitFn != conv {
+			for _, r := range returnsOf(commitFn) {
+				vals := returnValues(r)
+				if last := vals[len(vals)-1]; isNilConst(last) && !guardedByEdges(commitFn, r, commitNil) {
+					helperOK = false
+				} else if !isNilConst(last) && !definitelyNonNilError(last, nil) {
+					if pf := newPathFacts(commitFn).At(r); pf == nil || !pf.knownNonNil(last) {
+						helperOK = false
+					}
+				}
+			}
+			for cur := commitFn; cur != conv && helperOK; {
+				cs, _ := m.reg.site[cur].(*ssa.Call)
+				if cs == nil {
+					helperOK = false
+					break
+				}
+				if e, has := errResult(cs); has && e != nil && cs.Parent() == conv {
+					n, _ := nilTestEdges(e)
+					viaHelper = append(viaHelper, n...)
+				}
+				cur = cs.Parent()
+			}
+		}
 		for i, r := range succ {
-			c.Check("R2.2", fmt.Sprintf("Converge/return-nil#%d←commit", i+1), instrPos(r), m.guarded(r, commitNil),
+			ok := guardedByEdges(conv, r, commitNil)
+			if commitFn != conv {
+				ok = helperOK && len(viaHelper) > 0 && guardedByEdges(conv, r, viaHelper)
+			}
+			c.Check("R2.2", fmt.Sprintf("Converge/return-nil#%d←commit", i+1), instrPos(r), ok,
 				"every path to `return nil` passes Commit of the write transaction with its error tested nil")
 		}
 		// path-sensitive (pathsens.go): on every feasible path to the site the
 		// call has been executed and its error is known nil
-		pf := newPathFacts(conv)
+		pf := newPathFacts(commitFn)
 		for i, cm := range commits {
 			ok, _ := pf.SucceededBefore(upd, cm)
 			c.Check("R2.2", fmt.Sprintf("Converge/commit#%d←update", i+1), instrPos(cm), ok, "Commit of the write transaction is reached only after update returned nil")
@@ -255,7 +313,16 @@ func propC02(c *Ctx) {
 				if !isW {
 					continue
 				}
-				if r, _ := reach(siteOf(cm), isInstr(ci), nil); r {
+				ancestor := false
+				for _, at := range m.reg.chain(cm) {
+					if at == ssa.Instruction(ci) {
+						ancestor = true // the call of the helper the commit lives in
+					}
+				}
+				if ancestor {
+					continue
+				}
+				if r := m.reg.Reach(cm, ci, nil); r {
 					// a later loop iteration is not "after commit" if the function returns first;
 					// reach() follows back edges, so restrict to paths that do not pass a Return: returns end paths anyway
 					bad = shortCallee(ci)
@@ -280,6 +347,79 @@ func propC02(c *Ctx) {
 			}
 		}
 		r, path := reach(siteOf(b), isExit, cuts)
+		if r {
+			// a deferred function literal that rolls back "the current transaction"
+			// (a variable it captured) covers the exits, provided this transaction is
+			// the variable's value there: it was assigned to it and no other
+			// transaction replaces it while this one is unfinished
+			bfn := b.Parent()
+			for _, ci := range callsIn(bfn) {
+				df, isDefer := ci.(*ssa.Defer)
+				if !isDefer {
+					continue
+				}
+				mc, isMC := df.Call.Value.(*ssa.MakeClosure)
+				if !isMC {
+					continue
+				}
+				cf := mc.Fn.(*ssa.Function)
+				var cell *ssa.Alloc
+				for _, cc := range callsIn(cf) {
+					if !cc.Common().IsInvoke() || cc.Common().Method.Name() != "Rollback" {
+						continue
+					}
+					if u, ok := stripConv(cc.Common().Value).(*ssa.UnOp); ok {
+						if fv, ok := u.X.(*ssa.FreeVar); ok {
+							for k, x := range cf.FreeVars {
+								if x == fv {
+									cell, _ = mc.Bindings[k].(*ssa.Alloc)
+								}
+							}
+						}
+					}
+				}
+				if cell == nil {
+					continue
+				}
+				assigned, replaced := false, false
+				for _, ref := range *cell.Referrers() {
+					st, ok := ref.(*ssa.Store)
+					if !ok || st.Addr != ssa.Value(cell) {
+						continue
+					}
+					sv := stripConv(st.Val)
+					if cr := cellRead(sv); cr != nil {
+						sv = stripConv(cr)
+					}
+					if sv == stripConv(tx) {
+						if dominatesInstr(b, st) {
+							assigned = true
+						}
+						continue
+					}
+					if hit, _ := reach(siteOf(b), isInstr(st), cuts); hit {
+						replaced = true
+					}
+				}
+				registered := dominatesInstr(df, b)
+				if !registered && dominatesInstr(b, df) {
+					// registered right after the Begin: no exit before the defer statement (other than the Begin's own error arm)
+					c2 := newCuts().addInstr(df)
+					for e := range cuts.Edges {
+						c2.Edges[e] = true
+					}
+					for in := range cuts.Instrs {
+						c2.Instrs[in] = true
+					}
+					if early, _ := reach(siteOf(b), isExit, c2); !early {
+						registered = true
+					}
+				}
+				if assigned && !replaced && registered {
+					r = false
+				}
+			}
+		}
 		c.Check("R2.3", fmt.Sprintf("Converge/begin#%d", i+1), b.Pos(), !r,
 			"path from Begin to an exit without Commit/Rollback of that transaction: "+pathString(path))
 	}
